@@ -382,8 +382,12 @@ class MutantArm(Arm):
             parts = outputs["o0"].split("/")
             j = (pick // 7) % len(parts)
             parts[j] = parts[j] + "_zz"
+            good = outputs["o0"]
             outputs = {"o0": "/".join(parts)}
-            what = f"output path misspelt: {outputs['o0']}"
+            if pick % 2:
+                # next to a valid request (a misspelt one may not be dropped silently while the rest is served)
+                outputs["o1"] = good
+            what = f"output path misspelt: {outputs}"
         elif kind == "value_for_missing_operator":
             p_ = m["nodes"][pick % len(m["nodes"])][0]
             node_values = {f"{p_}/nonexistent_op/a": 1.0}
